@@ -2,6 +2,11 @@ import DepsDev.Proofs.C02MvnWords
 
 /-!
 # C02 — Maven, part 3: ComparableVersion's comparison on linear item trees is the key order
+
+`treeOf` turns an element list of the library into ComparableVersion's items (a `-` element opens
+a sub-list that holds everything after it). On good tails (`goodT`: numbers, qualifiers other than
+`ga`/`final`/`release`, only alpha…snapshot attached with a dot, a zero followed by numbers up to a
+positive one) `ListItem.compareTo` is `padLex` over C01's element keys: `cmpList_treeOf`.
 -/
 namespace DepsDev.Proofs.C02Mvn
 open Std DepsDev DepsDev.Semver DepsDev.Ref DepsDev.Proofs DepsDev.Proofs.C02
@@ -343,9 +348,6 @@ theorem cmpList_nil_right (l : List Item) : MavenCV.cmpList l [] = MavenCV.cmpNu
 
 theorem mavenLex_swap (a b : List MavenElem) : mavenLex a b = (mavenLex b a).swap :=
   OrientedCmp.eq_swap (cmp := mavenLex)
-
-theorem then_of_ne_eq {o p q : Ordering} (h : o ≠ .eq) : o.then p = o.then q := by
-  cases o <;> simp_all
 
 /-- **ComparableVersion's list comparison of two good tails is the key order.** -/
 theorem cmpList_treeOf : ∀ {a b : List MavenElem}, goodT a = true → goodT b = true →
